@@ -129,6 +129,14 @@ def ret_locals(fn):
     return out
 
 
+PROCESS_EXIT = ("std::process::exit",)
+
+
+def _nonzero_const(o):
+    c = o.get("c") if isinstance(o, dict) else None
+    return c is not None and isinstance(c.get("v"), int) and c["v"] != 0
+
+
 def signal_blocks(fn, matched_locals=()):
     """Blocks that carry a failure signal."""
     cfg = cfg_of(fn)
@@ -140,6 +148,23 @@ def signal_blocks(fn, matched_locals=()):
     du = defuse(fn)
     etaint = set()
     work = []
+    # a test through a reference (`r.is_err()` borrows r) is a test of the referent
+    matched_locals = set(matched_locals)
+    grow = list(matched_locals)
+    while grow:
+        m_ = grow.pop()
+        for site, whole in du.defs.get(m_, []):
+            if not site.is_term and site.node["rv"]["k"] == "ref" and not site.node["rv"]["pl"].get("p"):
+                x_ = site.node["rv"]["pl"]["l"]
+                if x_ not in matched_locals:
+                    matched_locals.add(x_)
+                    grow.append(x_)
+            elif not site.is_term and site.node["rv"]["k"] == "use" and op_place(site.node["rv"]["op"]) is not None \
+                    and not op_place(site.node["rv"]["op"]).get("p") and "&" in str(fn.locals[m_]["ty"])[:1]:
+                x_ = op_local(site.node["rv"]["op"])
+                if x_ not in matched_locals:
+                    matched_locals.add(x_)
+                    grow.append(x_)
     for m_ in matched_locals:
         for site, how in du.uses.get(m_, []):
             if not site.is_term and how == "rv" and site.node["rv"]["k"] == "use":
@@ -176,11 +201,18 @@ def signal_blocks(fn, matched_locals=()):
                     sig[bi] = "returns the error inside %s::%s" % (rv["adt"].split("::")[-1], rv.get("variant"))
                 elif rv["k"] == "use" and op_local(rv["op"]) in matched_locals:
                     sig[bi] = "returns the failed Result itself"
+                elif rv["k"] == "use" and "c" in rv["op"] and (rv["op"]["c"].get("unevaluated") or "").endswith("ExitCode::FAILURE"):
+                    sig[bi] = "returns ExitCode::FAILURE"
         t = b["term"]
         if t["k"] == "call":
             o = callee_orig(t)
             if o == FROM_RESIDUAL and t["dest"]["l"] in rl:
                 sig[bi] = "`?` propagates"
+            elif o in PROCESS_EXIT and t["args"] and _nonzero_const(t["args"][0]):
+                sig[bi] = "process::exit(non-zero)"
+            elif o == "core::convert::From::from" and t["dest"]["l"] in rl and "ExitCode" in (t.get("dest_ty") or "") \
+                    and t["args"] and _nonzero_const(t["args"][0]):
+                sig[bi] = "returns a non-zero ExitCode"
             elif o == SEND and len(t["args"]) >= 2:
                 if prov is None:
                     prov = Prov(fn)
@@ -223,13 +255,14 @@ def _is_error_update(fn, local):
 # function (a helper, a closure, a differently named wrapper) without a report, while absorbing any *other*
 # error of the same call is still reported.
 ERRNO = {"NXIO": 6, "NOSYS": 38, "PERM": 1, "XDEV": 18, "OPNOTSUPP": 95, "EOPNOTSUPP": 95, "INVAL": 22, "TXTBSY": 26,
-         "NOTSUP": 95}
+         "NOTSUP": 95, "NOTTY": 25, "INTR": 4, "AGAIN": 11}
 TOLERATED = {
     "std::io::Read::read": ({"Interrupted"}, "EINTR: the read is retried"),
     "rustix::fs::fd::seek": ({6}, "ENXIO from SEEK_DATA/SEEK_HOLE: no more data"),
-    "rustix::fs::copy_file_range::copy_file_range": ({38, 1, 18}, "ENOSYS/EPERM/EXDEV: kernel copy unavailable, user-space fallback"),
-    "libc::unix::linux_like::linux::ioctl#FIEMAP": ({95}, "EOPNOTSUPP: no extent maps, whole-file copy"),
-    "libc::unix::linux_like::linux::ioctl#FICLONE": ({95, 22, 18, 26}, "clone unsupported for this pair"),
+    # "the facility is not available here" codes (C05 lets xcp fall back on exactly these; the tree uses a subset)
+    "rustix::fs::copy_file_range::copy_file_range": ({38, 1, 18, 95}, "ENOSYS/EPERM/EXDEV/EOPNOTSUPP: kernel copy unavailable, user-space fallback"),
+    "libc::unix::linux_like::linux::ioctl#FIEMAP": ({95, 25, 38}, "EOPNOTSUPP/ENOTTY/ENOSYS: no extent maps, whole-file copy"),
+    "libc::unix::linux_like::linux::ioctl#FICLONE": ({95, 22, 18, 26, 25, 38}, "clone unsupported for this pair (EOPNOTSUPP/EINVAL/EXDEV/ETXTBSY/ENOTTY/ENOSYS)"),
     "std::path::Path::metadata": ({"NotFound"}, "ENOENT answers an existence question"),
     "std::path::Path::symlink_metadata": ({"NotFound"}, "ENOENT answers an existence question"),
     "std::fs::metadata": ({"NotFound"}, "ENOENT answers an existence question"),
@@ -242,6 +275,8 @@ EXEMPT_CALLEES = {
     "libfs::common::copy_xattr": "C04 exempts extended attributes: failure is a warning by design",
     "xattr::FileExt::set_xattr": "C04 exempts extended attributes",
     "simplelog::loggers::termlog::TermLogger::init": "logger set-up: falls back to the plain logger; no file-system effect",
+    "std::thread::local::LocalKey::<T>::try_with": "AccessError (thread-local storage already destroyed) is not the failure of a "
+                                                   "step that produces the destination; the caller falls back to a fresh value",
     "ignore::gitignore::GitignoreBuilder::add": "an absent .gitignore is the normal case and the API reports it the same way as "
                                                 "partial parse errors, which git itself tolerates; reading .gitignore is not one of the steps C04 lists",
 }
@@ -281,8 +316,9 @@ def _tolerated():
         return None
     import q
     keys = set()
-    # (a) primitives in the wrapper's body, transitively through private helpers
-    seen, work = set(), [prim]
+    # (a) primitives in the wrapper's body, transitively through private helpers, and in the closures handed to
+    # the wrapper at this call site (`retry_intr(|| pread(..))` fails as pread fails)
+    seen, work = set(), [prim] + [fv for fv in (t.get("fn") or {}).get("fnvals", []) if fv in fx.fns]
     while work:
         x = work.pop()
         if x in seen or x not in fx.fns:
@@ -494,6 +530,36 @@ def err_edge_of_switch(t, err_val):
     return t["otherwise"]
 
 
+def _conditional_retry(fn, err_target, region, matched_locals):
+    """Some switch inside the Err arm depends on the error value (directly, through its kind/errno, or through a
+    predicate that is given the error)."""
+    du = defuse(fn)
+    taint, work = set(), []
+    for m_ in matched_locals:
+        work.append(m_)
+    seen_m = set()
+    while work:
+        x = work.pop()
+        if x in taint:
+            continue
+        taint.add(x)
+        for site, how in du.uses.get(x, []):
+            n_ = site.node
+            if site.is_term:
+                if n_["k"] == "call" and n_.get("dest") is not None and not n_["dest"].get("p"):
+                    work.append(n_["dest"]["l"])
+            elif how == "rv" and not n_["lhs"].get("p"):
+                work.append(n_["lhs"]["l"])
+            elif how == "rv":
+                work.append(n_["lhs"]["l"])
+    for bi in region:
+        t = fn.blocks[bi]["term"]
+        if t["k"] == "switch" and op_local(t["op"]) in taint and bi != err_target or \
+                (t["k"] == "switch" and op_local(t["op"]) in taint and len(region) > 1):
+            return True
+    return False
+
+
 def check_err_arm(fn, switch_bb, err_target, matched_locals):
     """Every path from err_target to a return (or back to the switch) must pass a signal block."""
     cfg = cfg_of(fn)
@@ -520,6 +586,10 @@ def check_err_arm(fn, switch_bb, err_target, matched_locals):
             if not any(b in r2 for b in cfg.returns) and switch_bb not in r2:
                 absorbed = sorted(set(str(x) for (u, v, i) in edges if _ident_matches(i, tol[0]) for x in i))
                 return True, "absorbs only %s (%s); every other error fails" % (absorbed, tol[1]), None
+    if not bad_ret and loops_back and _conditional_retry(fn, err_target, r, matched_locals):
+        # the failed call is issued again, and only for some errors (`Err(e) if e.is_interrupted() => continue`):
+        # nothing is lost -- the step either succeeds later or fails with another error
+        return True, "the call is retried under a condition on the error", None
     wit = dict(err_arm_entry="bb%d" % err_target,
                reaches=("return bb%d" % bad_ret[0]) if bad_ret else ("loop back to bb%d" % switch_bb),
                shape="swallow-some" if some_signal else "swallow-all",
@@ -795,6 +865,9 @@ def run(fx, crates=None, cfgname="A"):
                 why = "this is the delivery of an error report itself: it can only fail when the receiver is gone"
             elif callee_path(t) in always_reports or o in always_reports:
                 why = "this call delivers an error report: it can only fail when the receiver is gone"
+            elif o == SEND:
+                why = "a status update is a report, not a step that produces the destination: its delivery can only " \
+                      "fail when the receiver is gone (that a *failure* is reported is required separately)"
             if why and all(c.cls in ("HANDLED-LOCALLY", "DISCARDED") for c in bad):
                 cl = good + [Classified("EXEMPT", why, ok=True)]
                 good, bad, ok = cl, [], True
